@@ -14,6 +14,7 @@ import DelbDriver.Attrs
 import DelbDriver.Document
 import DelbDriver.Gc
 import DelbDriver.Wrapping
+import DelbDriver.Codec
 open Lean DelbDriver
 
 def dispatch (j : Json) : Except String Json := do
@@ -39,6 +40,8 @@ def dispatch (j : Json) : Except String Json := do
   | "dropkinds" => handleDropKinds j
   | "tokenize" => handleTokenize j
   | "reduce_content" => handleReduceContent j
+  | "encode" => handleEncode j
+  | "decode" => handleDecode j
   | _ => throw s!"unknown cmd {cmd}"
 
 partial def loop (h : IO.FS.Stream) (out : IO.FS.Stream) : IO Unit := do
